@@ -152,7 +152,8 @@ def run_main_scenarios(spec, scratch):
                 res = []
                 rfmod = ['--RFPhaseModAmplitude', '0.5', '--RFPhaseModFrequency', '6e4', '-N', '1000']      # deterministic modulation, > 4096 steps
                 for extra_name, extra, T, na, nb_ in (('plain', [], '1.2', '3', '4'), ('renorm', ['--RenormalizeCharge', '3'], '1.2', '3', '4'),
-                                                      ('track', ['--RenormalizeCharge', '2'], '1.2', '3', '4'), ('rfmod', rfmod, '4.3', '100', '30')):
+                                                      ('track', ['--RenormalizeCharge', '2'], '1.2', '3', '4'), ('rfmod', rfmod, '4.3', '100', '30'),
+                                                      ('train_with_trailing_gap', ['-I', '1e-3', '6e-4', '0'], '1.2', '3', '4')):
                     a, rca, _ = run(['-T', T, '-n', na] + extra, f'cad_{extra_name}_a')
                     bb, rcb, _ = run(['-T', T, '-n', nb_, '--SavePhaseSpace', '1'] + extra, f'cad_{extra_name}_b')
                     p = subprocess.run([cmpx, a, bb], capture_output=True, text=True, timeout=120) if not isinstance(cmpx, tuple) else None
